@@ -14,6 +14,7 @@ from .rules import tables as RT
 from .rules import tables_sem as RTS
 
 from .rules import density as RDn
+from .rules import density_sem as RDS
 from .rules import omega_tab as RO
 from .rules import calculate as RCa
 from .rules import prism as RP2
@@ -37,6 +38,9 @@ R14_SETITEM = _fb(RTS.rule_setitem, RT.rule_pairtable_setitem)
 R14_GETITEM = _fb(RTS.rule_getitem, RT.rule_pairtable_getitem)
 R14_ITERPAIRS = _fb(RTS.rule_iterpairs, RT.rule_iterpairs)
 R14_SETUNSET = _fb(RTS.rule_setunset_check, RT.rule_setunset_check)
+R15_DENSITY = _fb(RDS.rule_density_histories, RDn.rule_density)
+R15_DIAMETER = _fb(RDS.rule_diameter_histories, RDn.rule_diameter)
+R15_CHECKS = _fb(RDS.rule_checks, RDn.rule_checks)
 R14_APPLY = _fb(RTS.rule_apply, RT.rule_apply)
 R14_VALUETABLE = _fb(RTS.rule_valuetable, RT.rule_valuetable)
 
@@ -47,8 +51,8 @@ def prop(pid, rules, explanation, not_decided, assumptions=(), trusted=('A1', 'A
 
 
 prop('C09',
-     [('R00.dyn', RG.rule_no_dynamic), ('R09.d', RC.rule_definition), ('R03.a', RC.rule_core),
-      ('R03.b', RC.rule_mask_sites), ('R09.w', RC.rule_weak_coupling), ('R09.e', RC.rule_elementwise),
+     [('R00.dyn', RG.rule_no_dynamic), ('R09.d', RC.rule_definition), ('R03.a', RC.rule_core), ('R03.i', RC.rule_core_infinite),
+      ('R03.t', RC.rule_flag_truthiness), ('R03.b', RC.rule_mask_sites), ('R09.w', RC.rule_weak_coupling), ('R09.e', RC.rule_elementwise),
       ('R09.p', RC.rule_purity), ('R09.h', RC.rule_history), ('R09.f', RC.rule_flag_reassigned), ('R09.a', RC.rule_aliases)],
      'Static analysis of pyPRISM/closure: for every AtomicClosure subclass and both values of apply_hard_core the '
      'return term of calculate(r,gamma) is extracted by abstract interpretation over canonical terms (exact '
@@ -67,7 +71,7 @@ prop('C10',
       ('R10.k', RP.rule_cut_shift),
       ('R10.w', RP.rule_wca), ('R10.p', RP.rule_purity), ('R10.h', RP.rule_history), ('R10.t', RP.rule_contact),
       ('R10.g', RD.rule_grid_products), ('R16.w', RP2.rule_wiring), ('R16.c', RP2.rule_copy_and_frame),
-      ('R15.s', RDn.rule_diameter)],
+      ('R15.s', R15_DIAMETER)],
      'Static analysis of pyPRISM/potential: constructors and calculate(r) of every Potential subclass are abstractly '
      'interpreted with symbolic parameters (stored lambdas inlined with their captured constructor arguments, '
      'super().calculate followed through the MRO) for every flag valuation (rcut None/given, shift); the piecewise '
@@ -80,7 +84,8 @@ prop('C10',
      ['epsilon >= 0 for the WCA non-negativity certificate'])
 
 prop('C03',
-     [('R00.dyn', RG.rule_no_dynamic), ('R03.a', RC.rule_core_only), ('R03.b', RC.rule_mask_sites),
+     [('R00.dyn', RG.rule_no_dynamic), ('R03.a', RC.rule_core_only), ('R03.i', RC.rule_core_infinite), ('R03.t', RC.rule_flag_truthiness),
+      ('R03.b', RC.rule_mask_sites),
       ('R03.c', RC.rule_noflag_limit),
       ('R03.d', RP.rule_core), ('R09.p', RC.rule_purity), ('R09.h', RC.rule_history_values),
       ('R16.w', RP2.rule_wiring), ('R16.c', RP2.rule_copy_and_frame), ('R10.h', RP.rule_history)],
@@ -96,7 +101,7 @@ prop('C03',
 prop('C07',
      [('R00.dyn', RG.rule_no_dynamic), ('R07.i', RD.rule_mutators), ('R07.g', RD.rule_grid),
       ('R07.t', RD.rule_roundtrip), ('R07.l', RD.rule_linearity), ('R08.t', RD.rule_prefactors),
-      ('R07.m', RD.rule_matrixarray_transforms)],
+      ('R07.m', RD.rule_matrixarray_transforms), ('R13.3', RM.rule_get_copy), ('R07.v', RG.rule_reshape_stores)],
      'Static analysis of pyPRISM/core/Domain.py: the constructor and the three property setters are abstractly '
      'interpreted with symbolic length/spacings; after each mutator every grid attribute (_dr,_dk,_length,r,k,DST '
      'coefficient arrays,long_r) must equal, as a canonical term, that of a freshly constructed Domain with the same '
@@ -123,7 +128,9 @@ def _r13_arith(ctx):
 
 prop('C13',
      [('R00.dyn', RG.rule_no_dynamic), ('R13.1', RM.rule_members), ('R13.2', RM.rule_space_guard),
-      ('R13.5', _r13_arith), ('R13.6', RM.rule_dot_invert), ('R13.9', RM.rule_items), ('R13.u', RM.rule_unknown_names),
+      ('R13.5', _r13_arith), ('R13.b', RM.rule_broadcast), ('R13.6', RM.rule_dot_invert), ('R13.3', RM.rule_get_copy),
+      ('R13.9', RM.rule_items),
+      ('R13.u', RM.rule_unknown_names),
       ('R13.i', RM.rule_iterpairs), ('R13.I', RM.rule_identity), ('R13.h', RM.rule_history), ('R13.t', RM.rule_typemap)],
      'Static analysis of pyPRISM/core/MatrixArray.py: every operator member is abstractly interpreted on a heap with '
      'array identity for each operand kind (MatrixArray, scalar, ndarray): the result term must be the elementwise '
@@ -158,8 +165,8 @@ prop('C14',
 
 
 prop('C15',
-     [('R00.dyn', RG.rule_no_dynamic), ('R15.f', RDn.rule_density), ('R15.s', RDn.rule_diameter),
-      ('R15.k', RDn.rule_checks), ('R15.w', RDn.rule_who_may_write), ('R13.9', RM.rule_items),
+     [('R00.dyn', RG.rule_no_dynamic), ('R15.f', R15_DENSITY), ('R15.s', R15_DIAMETER),
+      ('R15.k', R15_CHECKS), ('R15.w', RDn.rule_who_may_write), ('R13.9', RM.rule_items),
       ('R14.m', R14_SETITEM), ('R14.k', R14_SETUNSET)],
      'Static analysis of Density/Diameter: the setters are abstractly interpreted on an arbitrary symbolic pre-state '
      'with a symbolic type label; the inner loop over all types is case-split on (partner is the assigned type / another '
@@ -239,7 +246,7 @@ prop('C01',
       ('R16.w', RP2.rule_wiring), ('R16.c', RP2.rule_copy_and_frame),
       ('R09.d', RC.rule_definition), ('R03.a', RC.rule_core), ('R09.p', RC.rule_purity), ('R09.h', RC.rule_history_values),
       ('R14.c', R14_SETITEM),
-      ('R15.f', RDn.rule_density), ('R07.t', RD.rule_roundtrip), ('R07.i', RD.rule_mutators),
+      ('R15.f', R15_DENSITY), ('R07.t', RD.rule_roundtrip), ('R07.i', RD.rule_mutators),
       ('R07.m', RD.rule_matrixarray_transforms),
       ('R13.5', _r13_arith), ('R13.6', RM.rule_dot_invert), ('R13.9', RM.rule_items)],
      'Static analysis: PRISM.__init__ and PRISM.cost are abstractly interpreted end to end on a symbolic System (per-pair '
@@ -260,7 +267,7 @@ prop('C11',
      [('R00.dyn', RG.rule_no_dynamic), ('R11.d', ROm.rule_closed_forms), ('R11.d', ROm.rule_ring),
       ('R11.d', ROm.rule_trivial), ('R11.a', ROm.rule_aliases), ('R11.m', ROm.rule_koyama_multiplicity),
       ('R11.k', ROm.rule_koyama_kernel), ('R11.v', ROm.rule_koyama_rejection), ('R11.e', ROm.rule_nfjc),
-      ('R11.h', ROm.rule_history), ('R11.l', ROm.rule_library_names)],
+      ('R11.h', ROm.rule_history), ('R11.i', ROm.rule_instances), ('R11.l', ROm.rule_library_names)],
      'Static analysis of pyPRISM/omega: Gaussian and FreelyJointedChain terms are extracted with a symbolic chain length '
      '(E^(N+1) as a symbolic power) and compared with the closed form, whose equality with the defining pair sum '
      '(1/N) sum_ij E^|i-j| is certified by a 4-step induction checked by the normaliser on every run, plus explicit pair '
@@ -283,7 +290,7 @@ def _r17_libnames(ctx):
 
 
 prop('C17',
-     [('R00.dyn', RG.rule_no_dynamic), ('R17.d', RU.rule_conversions), ('R17.r', RU.rule_registry_isolation), ('R17.c', RU.rule_definitions), ('R17.u', RU.rule_unit_literals)],
+     [('R00.dyn', RG.rule_no_dynamic), ('R17.d', RU.rule_conversions), ('R17.h', RU.rule_call_history), ('R17.r', RU.rule_registry_isolation), ('R17.c', RU.rule_definitions), ('R17.u', RU.rule_unit_literals)],
      'Static analysis of pyPRISM/util/UnitConverter.py: the constructor and the six documented conversion methods are '
      'abstractly interpreted with pint quantities modelled as (magnitude term, unit monomial); the pinned pint registry is '
      'consulted as library metadata for existence, dimensionality, base factor and offset of every unit literal (a '
@@ -302,7 +309,7 @@ prop('C17',
 prop('C04',
      [('R00.dyn', RG.rule_no_dynamic), ('R04.a', RI.rule_swap_symmetry), ('R04.b', RI.rule_symmetric_tables),
       ('R04.c', RI.rule_label_parametricity), ('R04.e', RI.rule_potential_degree), ('R04.k', RI.rule_kT_degree),
-      ('R15.f', RDn.rule_density), ('R15.s', RDn.rule_diameter), ('R13.9', RM.rule_items),
+      ('R15.f', R15_DENSITY), ('R15.s', R15_DIAMETER), ('R13.9', RM.rule_items),
       ('R14.m', R14_SETITEM), ('R13.i', RM.rule_iterpairs), ('R13.t', RM.rule_typemap), ('R14.i', R14_ITERPAIRS),
       ('R05.x', RCa.rule_chi), ('R05.l', RCa.rule_spinodal), ('R05.b2', RCa.rule_second_virial),
       ('R16.w', RP2.rule_wiring), ('R01.a', RP2.rule_cost)],
@@ -332,6 +339,9 @@ def run(pid, tier, repo, seed=0, replay=None, write=True):
     ctx.trusted |= set(spec['trusted'])
     from . import lib as _L
     _L.STRICT_AXIS = pid in ('C07', 'C08')
+    # the transforms are claimed for *every* array by C07/C08 (and the potentials / closures for every grid); inside the
+    # solver pipeline (C01, C05, C06) every array that reaches them was allocated by the package as float64
+    _L.FLOAT_PIPELINE = pid in ('C01', 'C05', 'C06')
     for rid, fn in spec['rules']:
         ctx.run(rid, fn)
     if tier == 'thorough' and replay is None:
